@@ -23,6 +23,11 @@ stimuli
           seconds after the previous one - 0, 1, 2 or 3 s per case - always before that deadline)
     exit0 / exit1 / sig   the process ends (code 0 / code 1 / signal), control link drops
 
+A case also says how the code is entered ("mode"): launch() (default; the caller's directory given by the
+data_directory= keyword, or only through TorConfig.DataDirectory of a passed-in config - launch(_tor_config=cfg)
+or the legacy launch_tor(cfg, reactor, ...)), "direct" (TorProcessProtocol constructed and spawned by the
+harness, nobody holding a when_connected() Deferred) or "noctl" (launch(control_port=0)); and from which
+position on when_connected() is requested ("wc_from": late observers only),
 plus a configuration variant (caller / temporary data directory, control-port form, default
 or custom connection creator, ...).  ``TorProcessProtocol.when_connected()`` is requested at
 every position of the schedule (and re-entrantly from the progress callback).  The oracle is
@@ -62,7 +67,7 @@ LEVEL_NOTE = ("Trusted: vf.fakereactor (process/clock/connection doubles), vf.fa
               "(no re-entrant delivery), the real filesystem under a per-shard scratch TMPDIR. Interpretation: a timeout "
               "elapsing after 100% is not a launch timeout, so TERM sent then is judged (clause "
               "term-signalled-after-bootstrap-complete); after a timeout-first the launch may fail as late as process "
-              "end. ControlPort=0 (no control connection by design) is outside the model.")
+              "end. For ControlPort=0 (no control connection by design) only the process protocol's when_connected() is judged.")
 RULE = ("a case = (schedule, data-directory kind, configuration variant). Schedules are ALL sequences of length 1..N "
         "(N=6 quick, 7 thorough) over the stimulus alphabet (one atom per group: lst, lst2, out, err, cok|cfail, "
         "cok2|cfail2, own+|own-|own!, rst+|rst-|rst!, plo, p100, tmo, exit0|exit1|sig) that respect causality (connect outcome "
@@ -80,7 +85,9 @@ ASSUMPTIONS = [
     "at once unless the schedule holds TAKEOWNERSHIP / RESETCONF",
     "a launch that never completes (listener phrase split across stdout chunks, no stimulus) is counted, not judged",
     "exceptions documented or logged by design (stderr RuntimeError, log.err of the exit reason) are counted, not judged",
-    "ControlPort=0 launches are not generated",
+    "launch(control_port=0) returns at once by design: its launch Deferred is counted, not judged; its process "
+    "protocol's when_connected() Deferreds are judged like any other",
+    "a when_connected() Deferred that stays pending is judged only once the launch has failed and the process has ended",
 ]
 TRUSTED_BASE = ["vf.fakereactor.FakeReactor/FakeProcess/ConnAttempt", "vf.faketor.core.FakeTor + Link",
                 "Twisted Deferred/inlineCallbacks/endpoints wrapping factory", "os/tempfile on the scratch TMPDIR"]
@@ -105,6 +112,8 @@ FLOORS = {
               "control_connections_retried": 80, "control_connections_dropped_mid_ownership": 600,
               "dialogue_commands_stalled": 30, "late_observers_compared_with_first_outcome": 10000,
               "timeouts_judged_after_failed_attempts_at_later_instants": 300,
+              "caller_dir_supplied_via_torconfig": 400, "process_protocols_driven_directly": 120,
+              "launch_without_control_port": 30, "observers_checked_for_pending_after_failure": 15000,
               "reach:txtorcon.controller:TorProcessProtocol._maybe_notify_connected": 6000,
               "reach:txtorcon.controller:TorProcessProtocol.when_connected": 25000,
               "reach:txtorcon.controller:TorProcessProtocol.processEnded": 3500,
@@ -118,6 +127,8 @@ FLOORS = {
                  "timeouts_before_bootstrap_judged": 10000, "shutdown_firings": 25000,
                  "split_listener_cases": 10000, "control_connections_retried": 800,
                  "timeouts_judged_after_failed_attempts_at_later_instants": 2000,
+                 "caller_dir_supplied_via_torconfig": 3000, "process_protocols_driven_directly": 1500,
+                 "launch_without_control_port": 200,
                  "reach:txtorcon.controller:TorProcessProtocol._maybe_notify_connected": 40000,
                  "reach:txtorcon.controller:TorProcessProtocol.processEnded": 25000,
                  "reach:txtorcon.controller:TorProcessProtocol._timeout_expired": 10000,
@@ -159,6 +170,7 @@ GROUPS = [
 GROUP_OF = {a: g for g, al in GROUPS for a in al}
 ATOMS = [a for g, al in GROUPS for a in al if g != "stl"]     # general alphabet (stl only in stall cases)
 STALL_ATOMS = ["p100", "plo", "stl+", "stl-", "tmo", "exit1", "out", "err", "sig"]
+NOCTL_ATOMS = ["out", "err", "tmo", "exit0", "exit1", "sig", "lst"]     # ControlPort=0: nothing to connect to
 STALL_POSITIONS = 11        # commands txtorcon sends after the first SETEVENTS acknowledgement (0..10)
 EXITS = ("exit0", "exit1", "sig")
 # the first control connection got past authentication and then failed while asking for ownership:
@@ -321,6 +333,9 @@ def variant(rnd, dd, **fixed):
         "split": None,
         "stall": None,
         "pace": rnd.choice([0, 1, 2, 3, 3]),
+        "mode": "launch",
+        "wc_from": 0,
+        "via": rnd.choice(["launch", "launch", "launch_tor"]),     # route used when dd == "config"
     }
     v.update(fixed)
     return v
@@ -498,6 +513,9 @@ class Run(object):
         self.tor_kw = None
         self.stall = {"at": case.get("stall")}
         self.deadline = None
+        self.mode = case.get("mode", "launch")
+        self.pending_flagged = False
+        self.observers_at_failure = None
         self.failed_attempt_times = []     # clock instants at which a control connection attempt failed
         self.proc = None
         self.pp = None
@@ -584,15 +602,30 @@ class Run(object):
         self.reactor = r = FakeReactor()
         kw = {"tor_binary": os.path.join(self.root, "no-such-tor"), "timeout": TIMEOUT,
               "kill_on_stderr": case["kos"]}
+        self.progress_seen = []
+        r.spawn_hook = self.spawned
+        if self.mode == "direct":
+            return self.start_direct(kw["tor_binary"])
+        cfg = None
         if case["dd"] != "temp":
             self.caller_dir = os.path.join(self.root, "data")
-            if case["dd"] == "caller":
+            if case["dd"] in ("caller", "config"):
                 os.mkdir(self.caller_dir, 0o700)
                 with open(os.path.join(self.caller_dir, "keep.me"), "w") as f:
                     f.write("caller state")
-            kw["data_directory"] = self.caller_dir
+            if case["dd"] == "config":
+                # the caller's directory is supplied only through the TorConfig handed to launch
+                cfg = txtorcon.TorConfig()
+                cfg.DataDirectory = self.caller_dir
+                self.rec.count("caller_dir_supplied_via_torconfig")
+            else:
+                kw["data_directory"] = self.caller_dir
+        legacy = cfg is not None and case.get("via") == "launch_tor"
         self.where = None
-        if case["ctl"] == "tcp":
+        if self.mode == "noctl":
+            kw["control_port"] = 0
+            self.where = "nowhere"
+        elif case["ctl"] == "tcp":
             kw["control_port"] = TCP_CONTROL_PORT
             self.where = "127.0.0.1:%d" % TCP_CONTROL_PORT
         elif case["ctl"] == "unix-explicit":
@@ -609,12 +642,56 @@ class Run(object):
             kw["stdout"], kw["stderr"] = self.out_sink, self.err_sink
         if case["prog"]:
             kw["progress_updates"] = self.on_progress
-        self.progress_seen = []
-        r.spawn_hook = self.spawned
         self.log.start()
         self.deadline = r.seconds() + TIMEOUT          # launch time + timeout, on the virtual clock
-        self.L = self.watch(self.guard("launch", txtorcon.launch, r, **kw), "launch", "launch")
+        if legacy:
+            # launch_tor(config, reactor, ...) takes ports from the config
+            for k_, name in (("control_port", "ControlPort"), ("socks_port", "SocksPort")):
+                if k_ in kw:
+                    setattr(cfg, name, kw.pop(k_))
+            self.rec.count("launched_via_launch_tor")
+            d = self.guard("launch", txtorcon.launch_tor, cfg, r, **kw)
+        else:
+            if cfg is not None:
+                kw["_tor_config"] = cfg
+            d = self.guard("launch", txtorcon.launch, r, **kw)
+        self.L = self.watch(d, "launch", "launch")
         self.guard("flush", r.flush)
+        return self.proc is not None
+
+    def start_direct(self, binary):
+        """TorProcessProtocol used without launch(): constructed and spawned by the harness, so nobody
+        holds a when_connected() Deferred unless the schedule asks for one"""
+        import functools
+        import txtorcon
+        from twisted.internet.endpoints import TCP4ClientEndpoint
+        case, r = self.case, self.reactor
+        self.caller_dir = os.path.join(self.root, "data")
+        os.mkdir(self.caller_dir, 0o700)
+        with open(os.path.join(self.caller_dir, "keep.me"), "w") as f:
+            f.write("caller state")
+        self.where = "127.0.0.1:%d" % TCP_CONTROL_PORT
+        if case["creator"] == "custom":
+            creator = self.creator
+        else:
+            creator = functools.partial(TCP4ClientEndpoint(r, "localhost", TCP_CONTROL_PORT).connect,
+                                        txtorcon.TorProtocolFactory())
+        out = err = None
+        if case["io"]:
+            self.out_sink, self.err_sink = out, err = Sink(), Sink()
+        self.log.start()
+        self.deadline = r.seconds() + TIMEOUT
+        cfg = txtorcon.TorConfig()
+        pp = self.guard("ctor", txtorcon.TorProcessProtocol, creator,
+                        self.on_progress if case["prog"] else None, cfg, r, TIMEOUT, case["kos"], out, err)
+        if pp is None:
+            return False
+        args = [binary, "-f", "/dev/null/non-existant-on-purpose", "--ignore-missing-torrc",
+                "DataDirectory", self.caller_dir, "SOCKSPort", "9150", "ControlPort", str(TCP_CONTROL_PORT),
+                "CookieAuthentication", "1", "__OwningControllerProcess", str(os.getpid())]
+        self.guard("spawn", r.spawnProcess, pp, binary, args=args, env={"HOME": self.caller_dir},
+                   path=self.caller_dir)
+        self.rec.count("process_protocols_driven_directly")
         return self.proc is not None
 
     def spawned(self, proc):
@@ -641,8 +718,9 @@ class Run(object):
         conf.apply(known)
         dd = [v for (k, v) in pairs if k.lower() == "datadirectory"]
         self.data_dir = dd[-1] if dd else None
-        if self.caller_dir is None:
-            self.temp_dir = self.data_dir
+        if self.data_dir and (self.caller_dir is None or
+                              os.path.realpath(self.data_dir) != os.path.realpath(self.caller_dir)):
+            self.temp_dir = self.data_dir      # a directory launch() made up itself
         if self.where is None:
             cp = [v for (k, v) in pairs if k.lower() == "controlport"]
             self.where = cp[-1][5:] if cp and cp[-1].startswith("unix:") else "127.0.0.1:%s" % (cp[-1] if cp else "?")
@@ -686,7 +764,7 @@ class Run(object):
 
     def on_progress(self, percent, tag, summary):
         self.progress_seen.append(percent)
-        if self.case["wc"] and self.pp is not None:
+        if self.case["wc"] and self.pp is not None and self.step_no >= self.case.get("wc_from", 0):
             self.watch(self.pp.when_connected(), "wc-in-progress-callback@%d" % self.step_no, "wc")
             self.rec.count("when_connected_requests_reentrant")
 
@@ -830,7 +908,7 @@ class Run(object):
         elif atom == "tmo":
             first = self.timeout_elapsed_at is None
             self.signals_before = len(proc.signals) if proc else 0
-            self.launch_fired_before_tmo = bool(self.L.fired)
+            self.launch_fired_before_tmo = bool(self.L is not None and self.L.fired and self.mode == "launch")
             if first:
                 self.timeout_elapsed_at = self.step_no
                 if self.t100 is None and self.launch_failed_due is None:
@@ -872,7 +950,7 @@ class Run(object):
 
     # -- oracle ---------------------------------------------------------------------------
     def request_wc(self):
-        if self.case["wc"] and self.pp is not None:
+        if self.case["wc"] and self.pp is not None and self.step_no >= self.case.get("wc_from", 0):
             d = self.guard("when_connected", self.pp.when_connected)
             if d is not None:
                 self.watch(d, "wc@%d" % self.step_no, "wc")
@@ -884,11 +962,14 @@ class Run(object):
             rec.count("caller_dir_checks")
             if not os.path.isdir(self.caller_dir):
                 # a directory that launch() was to create is only demanded once it has been there
-                if self.case["dd"] == "caller" or self.caller_dir_seen:
-                    self.V("caller-dir-removed", "caller-dir/" + phase, {"dir": self.case["dd"]})
+                if self.case["dd"] in ("caller", "config") or self.mode == "direct" or self.caller_dir_seen:
+                    self.V("caller-dir-removed", "caller-dir%s/%s" % (
+                        "-via-torconfig" if self.case["dd"] == "config" else "", phase), {"dir": self.case["dd"]})
             else:
                 self.caller_dir_seen = True
-                want = ["control_auth_cookie", "state"] + (["keep.me"] if self.case["dd"] == "caller" else [])
+                want = ["keep.me"] if self.case["dd"] in ("caller", "config") or self.mode == "direct" else []
+                if self.data_dir and os.path.realpath(self.data_dir) == os.path.realpath(self.caller_dir):
+                    want += ["control_auth_cookie", "state"]       # what Tor wrote there
                 missing = [n for n in want if not os.path.exists(os.path.join(self.caller_dir, n))]
                 if missing and self.proc is not None:
                     self.V("caller-dir-contents-removed", "caller-dir/" + phase, {"missing": missing})
@@ -938,8 +1019,12 @@ class Run(object):
             snap = o.snap
             if o.kind == "launch":
                 rec.count("launch_outcomes_judged")
-                rec.seen("launch_outcomes", "%s/%s" % (ocls, "ok" if o.ok else type(o.value).__name__))
-                if o.ok:
+                rec.seen("launch_outcomes", "%s/%s%s" % (ocls, "ok" if o.ok else type(o.value).__name__,
+                                                         "/control-port-0" if self.mode == "noctl" else ""))
+                if o.ok and self.mode == "noctl":
+                    # ControlPort=0: no control connection by design, launch() returns at once (not judged)
+                    rec.count("launch_without_control_port")
+                elif o.ok:
                     rec.count("launch_success_judged")
                     if snap["t100"] is None:
                         self.V("launch-success-before-bootstrap-100", ocls, {"snapshot": snap, "atom": atom})
@@ -1005,14 +1090,35 @@ class Run(object):
                                ocls + ("+connection-attempt-failed-after-launch-instant" if later else ""),
                                {"signals_sent_on_timeout": new, "clock": self.reactor.seconds(),
                                 "deadline": self.deadline, "failed_attempts_at": list(self.failed_attempt_times),
-                                "launch_fired": bool(self.L.fired)})
+                                "launch_fired": bool(self.L is not None and self.L.fired)})
                 elif self.t100 is not None and new:
                     self.V("term-signalled-after-bootstrap-complete", ocls, {"signals_sent_on_timeout": new})
         # (4) failure is due
-        if self.launch_failed_due == "exit" and not self.L.fired:
+        if self.launch_failed_due == "exit" and self.L is not None and not self.L.fired:
             self.V("launch-not-failed-after-process-end", ocls, {"atom": atom})
-        if self.launch_failed_due == "timeout" and self.exited_at is not None and not self.L.fired:
+        if self.launch_failed_due == "timeout" and self.exited_at is not None and self.L is not None \
+                and not self.L.fired:
             self.V("launch-not-failed-after-timeout", ocls, {"atom": atom})
+        # (4b) an observer must learn of the failure: once the process has ended before any 100 % (or the
+        # timeout elapsed first and the process has ended since), no when_connected() Deferred may still
+        # be pending at quiescence - whether it was requested before or after, with or without company
+        due = self.launch_failed_due == "exit" or (self.launch_failed_due == "timeout" and self.exited_at is not None)
+        if self.launch_failed_due and self.observers_at_failure is None:
+            self.observers_at_failure = (1 if self.mode == "launch" else 0) + len(
+                [o for o in self.obs if o.kind == "wc" and not o.req_after_failure])
+        if due:
+            pend = [o for o in self.obs if o.kind == "wc" and not o.fired]
+            rec.count("observers_checked_for_pending_after_failure",
+                      len([o for o in self.obs if o.kind == "wc"]))
+            if pend and not self.pending_flagged:
+                self.pending_flagged = True
+                o = pend[0]
+                self.V("when-connected-pending-after-launch-failed",
+                       "%s/%s" % ("requested-after-failed-launch" if o.req_after_failure else "requested-before-failure",
+                                  "no-observer-registered-at-failure" if not self.observers_at_failure
+                                  else "observers-registered-at-failure"),
+                       {"failed_due": self.launch_failed_due, "pending": [x.label for x in pend][:6],
+                        "mode": self.mode, "atom": atom})
         # (5) directories
         self.dir_checks(phase)
 
@@ -1058,7 +1164,7 @@ class Run(object):
                 self.request_wc()
                 self.judge("final-exit", "after-final-exit")
             # counted, not judged
-            if not self.L.fired:
+            if self.L is not None and not self.L.fired:
                 rec.count("launch_never_completed")
             if "lst" in self.applied and not (self.custom_attempts or self.reactor.connections):
                 rec.count("listener_seen_but_no_connect_attempt")
@@ -1104,8 +1210,28 @@ def shard_cases(spec):
             if i % n != k:
                 continue
             rnd = gen.rnd_for(spec["seed"], PROPERTY, "perm", i)
-            for dd in ("temp", rnd.choice(["caller", "caller", "caller-new"])):
+            for dd in ("temp", rnd.choice(["caller", "caller", "caller-new", "config"])):
                 yield variant(rnd, dd, sched=list(s))
+    elif mode == "late":
+        # nobody (direct) / nothing but launch()'s early return (noctl) listens when the decisive event
+        # happens; when_connected() is asked for only from position wc_from on
+        j = 0
+        for i, s in enumerate(enumerate_schedules(spec["maxlen"])):
+            ks = range(1, len(s) + 2) if spec.get("all_positions") else (len(s), len(s) + 1)
+            for wf in ks:
+                j += 1
+                if j % n != k:
+                    continue
+                rnd = gen.rnd_for(spec["seed"], PROPERTY, "late", i, wf)
+                yield variant(rnd, "caller", sched=list(s), mode="direct", wc_from=wf, wc=True, ctl="tcp")
+        for i, s in enumerate(enumerate_schedules(spec.get("noctl_maxlen", 3), NOCTL_ATOMS)):
+            for wf in range(0, len(s) + 2):
+                j += 1
+                if j % n != k:
+                    continue
+                rnd = gen.rnd_for(spec["seed"], PROPERTY, "noctl", i, wf)
+                yield variant(rnd, rnd.choice(["temp", "caller", "config"]), sched=list(s), mode="noctl",
+                              wc_from=wf, wc=True)
     elif mode == "split":
         scheds = [s for s in enumerate_schedules(spec["maxlen"])
                   if "lst" in s and len(s) >= spec.get("minlen", 1)]
@@ -1151,7 +1277,13 @@ def run_shard(spec, rec):
                 rec.sample({"case": case, "applied": run.applied,
                             "launch": None if run.L is None else ("pending" if not run.L.fired else
                                                                    ("ok" if run.L.ok else repr(run.L.value)))})
-        if spec["mode"] == "perm":
+        if spec["mode"] == "late":
+            rec.enumerated("TorProcessProtocol driven directly x all causal permutations of length <= %d x when_connected() "
+                           "requested only from %s on; launch(control_port=0) x permutations <= %d of %s x every first "
+                           "request position" % (spec["maxlen"], "every position" if spec.get("all_positions")
+                                                  else "the last stimulus / the end phase", spec.get("noctl_maxlen", 3),
+                                                  ",".join(NOCTL_ATOMS)))
+        elif spec["mode"] == "perm":
             rec.enumerated("all causal stimulus permutations of length <= %d (x temp/caller data directory)"
                            % spec["maxlen"])
         else:
@@ -1186,14 +1318,18 @@ def replay(case, rec):
 def plan(tier, seed):
     specs = []
     if tier == "quick":
-        for k in range(14):
-            specs.append({"mode": "perm", "maxlen": 6, "k": k, "of": 14})
+        for k in range(13):
+            specs.append({"mode": "perm", "maxlen": 6, "k": k, "of": 13})
+        specs.append({"mode": "late", "maxlen": 4, "k": 0, "of": 1})
         for k in range(2):
             specs.append({"mode": "split", "maxlen": 4, "offsets": QUICK_OFFSETS, "k": k, "of": 2, "retry_extra": 2,
                           "stall_extra": 2, "stall_atoms": ["p100", "stl+", "stl-", "tmo", "exit1", "plo"]})
     else:
         for k in range(32):
             specs.append({"mode": "perm", "maxlen": 7, "k": k, "of": 32, "timeout_s": 3000})
+        for k in range(3):
+            specs.append({"mode": "late", "maxlen": 5, "noctl_maxlen": 4, "all_positions": True, "k": k, "of": 3,
+                          "timeout_s": 3000})
         # every byte offset of the listener output x all permutations <= 4; the offsets around the
         # phrase boundaries also with all permutations <= 5
         for k in range(12):
